@@ -419,6 +419,18 @@ func (w *cworld) getState(c *fw.Ctx, key, hash string, query bool) bool {
 }
 
 func (w *cworld) getBlockCtx(c *fw.Ctx, key string, b *cblock) bool {
+	if b.committed {
+		// the block cache object of a committed block is still a lookup context of that block: own (now committed)
+		// writes first, then the ancestors
+		tok, found, sure, depth := w.truth(key, b.hash)
+		sig := w.overflowSig(key)
+		got, ok := b.bc.Get(key)
+		w.noteLookup(key, b.hash)
+		c.Tracef("get %s in block cache %s (committed) -> %v", key, b.hash, ok)
+		c.Count("lookups_through_caches_of_committed_blocks", 1)
+		must := w.mutable && sure && w.withinCapacity(key, depth)
+		return w.judge(c, fmt.Sprintf("BlockCache(%s, committed).Get(%s)", b.hash, key), key, got, ok, tok, found, must, sig)
+	}
 	tok, found, sure := w.truthBlockCtx(key, b)
 	_, own := b.pre[key]
 	sig := w.overflowSig(key)
@@ -432,6 +444,21 @@ func (w *cworld) getBlockCtx(c *fw.Ctx, key string, b *cblock) bool {
 }
 
 func (w *cworld) getTxnCtx(c *fw.Ctx, key string, t *ctxn) bool {
+	if t.blk.committed {
+		if v, own := t.w[key]; own { // a transaction that never committed still sees its own writes first
+			got, ok := t.tc.Get(key)
+			c.Tracef("get %s in txn cache %s (block committed, own write) -> %v", key, t.name, ok)
+			return w.judge(c, fmt.Sprintf("TransactionCache(%s, block committed).Get(%s)", t.name, key), key, got, ok, v.tok, !v.tomb, !v.tomb, w.overflowSig(key))
+		}
+		tok, found, sure, depth := w.truth(key, t.blk.hash)
+		sig := w.overflowSig(key)
+		got, ok := t.tc.Get(key)
+		w.noteLookup(key, t.blk.hash)
+		c.Tracef("get %s in txn cache %s (block committed) -> %v", key, t.name, ok)
+		c.Count("lookups_through_caches_of_committed_blocks", 1)
+		must := w.mutable && sure && w.withinCapacity(key, depth)
+		return w.judge(c, fmt.Sprintf("TransactionCache(%s, block committed).Get(%s)", t.name, key), key, got, ok, tok, found, must, sig)
+	}
 	tok, found, sure := w.truthTxnCtx(key, t)
 	_, own := t.w[key]
 	_, ownB := t.blk.pre[key]
